@@ -43,6 +43,20 @@ class ExtremeRng:
         return self.rng.sample(xs, k)
 
 
+class PatternRng(ExtremeRng):
+    """like ExtremeRng, but the k-th period drawn is the low or the high end according to bit k of `pattern`: enumerating the
+    patterns gives every combination of extreme periods (short fast / long slow, long first / short second, …) on every run"""
+    def __init__(self, rng, pattern):
+        self.rng, self.pattern, self.k = rng, pattern, 0
+
+    def randrange(self, a, b=None):
+        if b is None:
+            a, b = 0, a
+        bit = (self.pattern >> self.k) & 1
+        self.k += 1
+        return b - 1 if bit else a
+
+
 def gen_pipelines(rng, tier):
     """list of dict(kind, name, ns, fs, streams, lens, ref_line or None)"""
     cases = []
@@ -50,14 +64,23 @@ def gen_pipelines(rng, tier):
     cfgs = 4 if tier == 'quick' else 8
     xr = ExtremeRng(rng)
     for name, (kinds, cfg, default) in CAT.items():
-        for j in range(cfgs):
-            if j % 4 == 2:
+        seen_ns = set()
+        plan = list(range(cfgs)) + [('pattern', b) for b in range(1, 8)]
+        for j in plan:
+            if isinstance(j, tuple):
+                # every combination of extreme periods for the first three period parameters (deterministic, not drawn)
+                ns, fs = cfg(PatternRng(rng, j[1]), 2 * hi)
+                if tuple(ns) in seen_ns:
+                    continue
+                j = 1
+            elif j % 4 == 2:
                 ns, fs = cfg(xr, 2 * hi)
             elif j % 4 == 3:
                 ns, fs = cfg(rng, 3 * hi)
             else:
                 ns, fs = cfg(rng, hi if j else 3)
             ns, fs = list(ns), list(fs)
+            seen_ns.add(tuple(ns))
             lens = ind_lengths(rng, ns)
             if tier == 'quick':
                 lens = sorted(set(rng.sample(lens, min(len(lens), 6)) + [0, 1]))
@@ -276,6 +299,16 @@ def net_correspondence(res, tier, rng):
                 a = [float((7 * j * j + 3 * j) % 23 - 9) for j in range(n)]
                 glines.append('n%d SCHED NET msum - - %s %d %d' % (i, vlib.streams([a, [float(p)]]), cap, i % 6))
                 mlines.append('n%d NET msum 1 %d %s %d,%d' % (i, cap, vlib.il(a), p, cap + p))
+    # trend.MovingMax / MovingMin: the MovingSum network with a search-tree closure (NetM.winNet), duplicates and zeros included
+    for n in range(0, 8 if tier == 'quick' else 14):
+        for p in range(1, 5 if tier == 'quick' else 8):
+            for cap in (0, 2):
+                for which in ('wmax', 'wmin'):
+                    i = len(cases)
+                    cases.append((n, '%s p=%d' % (which, p), cap))
+                    a = [float((5 * j * j + 2 * j) % 7 - 3) for j in range(n)]
+                    glines.append('n%d SCHED NET %s - - %s %d %d' % (i, which, vlib.streams([a, [float(p)]]), cap, i % 6))
+                    mlines.append('n%d NET %s 1 %d %s %d,%d' % (i, which, cap, vlib.il(a), p, cap + p))
     # trend.Sma = MovingSum followed by the dividing Apply (NetM.smaNet); inputs are multiples of p so that every average is an integer
     for n in range(0, 8 if tier == 'quick' else 14):
         for p in range(1, 5 if tier == 'quick' else 8):
